@@ -1,5 +1,5 @@
 """C01: response bodies are relayed byte-exactly with correct framing (end to end through the real squid)."""
-import base64, concurrent.futures, json, random, resource, socket, threading, time
+import base64, concurrent.futures, json, os, random, resource, socket, threading, time
 from vlib import std, lab, common
 from checks import relay_common as rc
 
@@ -15,7 +15,8 @@ META = {
             "mustSendLastChunk, sendBody) the client byte stream decodes under a reference HTTP/1.1 reader to the "
             "origin's body, complete, for every store-delivery partition (C01_relay_exact_*), and a premature origin "
             "EOF yields an incomplete client message whenever the client framing is Content-Length or chunked "
-            "(C01_truncation_visible_partial). REFUTED at full strength with witnesses confirmed on the running proxy: "
+            "(C01_truncation_visible_partial_content_length, C01_truncation_visible_partial_chunked_http11; malformed "
+            "origin chunking never reads as complete either). REFUTED at full strength with witnesses confirmed on the running proxy: "
             "(1) a truncated chunked origin body relayed to an HTTP/1.0 client is close-delimited and reads as complete "
             "(C01_truncation_http10_refuted); (2) bytes that arrive together with the head of a 204/304 reply are "
             "written to the client after the bodiless reply (C01_bodiless_extra_bytes_refuted). The framing decision "
@@ -420,6 +421,7 @@ def nontrivial_fn(s, o):
 
 
 def run(res, tier):
+    os.environ.setdefault("VERIF_STALL", "300")   # a 1 MB case may take the model runner > 30 s on a loaded machine
     soft, hard = resource.getrlimit(resource.RLIMIT_STACK)
     try:
         resource.setrlimit(resource.RLIMIT_STACK, (hard if hard != resource.RLIM_INFINITY else resource.RLIM_INFINITY, hard))
